@@ -12,6 +12,8 @@ import (
 	"time"
 
 	restful "github.com/emicklei/go-restful/v3"
+
+	"verifharness/internal/rng"
 )
 
 func init() {
@@ -57,6 +59,58 @@ type BuildOpts struct {
 	Observe int
 	// Dynamic: WebService.SetDynamicRoutes(true) on every WebService (RemoveRoute is allowed)
 	Dynamic bool
+	// Reuse: 0 = every route comes from a RouteBuilder of its own (ws.Method(...)); otherwise the seed
+	// that decides, route by route, whether the RouteBuilder value that built the previous route of the
+	// WebService is used again with everything the next declaration says set anew (Method, Path,
+	// Operation, Consumes, Produces, AllowedMethodsWithoutContentType, To; If only appends, so a builder
+	// is used again only for a route whose conditions extend the ones it already carries). The table
+	// that results is the one a builder per route gives.
+	Reuse uint64
+}
+
+// svcBuilders is the RouteBuilder a WebService's routes are being declared with when builders are
+// reused (BuildOpts.Reuse): the builder last given to WebService.Route and the conditions it carries.
+type svcBuilders struct {
+	r     *rng.R
+	last  *restful.RouteBuilder
+	conds []int
+}
+
+func newSvcBuilders(bo BuildOpts, svcID int) *svcBuilders {
+	if bo.Reuse == 0 {
+		return &svcBuilders{}
+	}
+	return &svcBuilders{r: rng.New(bo.Reuse).Fork(uint64(svcID))}
+}
+
+// Reused counts the routes that were declared with a RouteBuilder that had built a route before.
+var Reused int
+
+// next returns the builder for declaration r: the previous one set anew (three times out of four when
+// that is possible), else a fresh one.
+func (sb *svcBuilders) next(ws *restful.WebService, s Service, r RouteDecl, bo BuildOpts) *restful.RouteBuilder {
+	if sb.r != nil && sb.last != nil && len(r.Conds) >= len(sb.conds) && sb.r.Chance(3, 4) {
+		ok := true
+		for i, ci := range sb.conds {
+			ok = ok && r.Conds[i] == ci
+		}
+		if ok {
+			extra := r
+			extra.Conds = r.Conds[len(sb.conds):]
+			configure(sb.last, s, extra, true)
+			sb.conds = append([]int{}, r.Conds...)
+			Reused++
+			return sb.last
+		}
+	}
+	rb := RouteBuilder(ws, s, r)
+	if bo.Observe >= 3 {
+		rb.Filter(observer("route-filter"))
+	}
+	if sb.r != nil {
+		sb.last, sb.conds = rb, append([]int{}, r.Conds...)
+	}
+	return rb
 }
 
 // Built is a container with the handles of its WebServices (in the order of cfg.Services).
@@ -64,6 +118,8 @@ type Built struct {
 	C  *restful.Container
 	WS []*restful.WebService
 	BO BuildOpts
+	// SB: the builders the routes of each WebService were declared with (a late route may use them again)
+	SB []*svcBuilders
 }
 
 // CondHeader carries the If-condition bits of a request ("101" = conditions 0 and 2 true).
@@ -108,16 +164,20 @@ func BuildWith(cfg Config, bo BuildOpts) (b *Built, err error) {
 	}
 	b = &Built{C: c, BO: bo}
 	for _, s := range cfg.Services {
-		ws := buildService(s, bo)
+		ws, sb := buildService(s, bo)
 		c.Add(ws)
 		b.WS = append(b.WS, ws)
+		b.SB = append(b.SB, sb)
 	}
 	return b, nil
 }
 
-func BuildService(s Service) *restful.WebService { return buildService(s, BuildOpts{}) }
+func BuildService(s Service) *restful.WebService {
+	ws, _ := buildService(s, BuildOpts{})
+	return ws
+}
 
-func buildService(s Service, bo BuildOpts) *restful.WebService {
+func buildService(s Service, bo BuildOpts) (*restful.WebService, *svcBuilders) {
 	ws := new(restful.WebService)
 	ws.Path(s.Root)
 	if bo.Dynamic {
@@ -132,29 +192,32 @@ func buildService(s Service, bo BuildOpts) *restful.WebService {
 	if len(s.Produces) > 0 {
 		ws.Produces(s.Produces...)
 	}
+	sb := newSvcBuilders(bo, s.ID)
 	for _, r := range s.Routes {
-		rb := RouteBuilder(ws, s, r)
-		if bo.Observe >= 3 {
-			rb.Filter(observer("route-filter"))
-		}
-		ws.Route(rb)
+		ws.Route(sb.next(ws, s, r, bo))
 	}
-	return ws
+	return ws, sb
 }
 
 func RouteBuilder(ws *restful.WebService, s Service, r RouteDecl) *restful.RouteBuilder {
+	return configure(ws.Method(r.Method), s, r, false)
+}
+
+// configure says declaration r on builder b. again: b has built a route before, so what r leaves
+// unsaid is set to "nothing said" explicitly (r.Conds are then the conditions to add to the ones b has).
+func configure(b *restful.RouteBuilder, s Service, r RouteDecl, again bool) *restful.RouteBuilder {
 	sid, rid := s.ID, r.ID
-	b := ws.Method(r.Method).Path(r.Rel).Operation(OpName(sid, rid))
-	if len(r.Consumes) > 0 {
+	b.Method(r.Method).Path(r.Rel).Operation(OpName(sid, rid))
+	if len(r.Consumes) > 0 || again {
 		b.Consumes(r.Consumes...)
 	}
-	if len(r.Produces) > 0 {
+	if len(r.Produces) > 0 || again {
 		b.Produces(r.Produces...)
 	}
 	for _, ci := range r.Conds {
 		b.If(condFn(ci))
 	}
-	if len(r.Noct) > 0 {
+	if len(r.Noct) > 0 || again {
 		b.AllowedMethodsWithoutContentType(r.Noct)
 	}
 	b.To(func(req *restful.Request, resp *restful.Response) {
